@@ -188,7 +188,7 @@ def run(ctx):
                 continue
             spec = specs[n]
         else:
-            spec = graphs.rand_spec(rng, nmax=7 if quick else 14, mmax=12 if quick else 35, ecls=graphs.ECLS_X,
+            spec = graphs.rand_spec(rng, nmax=7 if quick else 14, mmax=12 if quick else 35, ecls=graphs.ECLS_X, vcls=graphs.VCLS_X,
                                     uni_mode="rand", self_p=0.15)
             if spec["uni"] is None:
                 spec["uni"] = [i for i in range(len(spec["verts"])) if rng.random() < 0.8]
